@@ -31,6 +31,12 @@ func init() {
 }
 
 func runC05(c *an.Ctx) {
+	// ---- R8: upstream EDNS options never reach the client; the client's ECS data survives the copy made for rewritten requests
+	c.Floor("C05-R8", 3)
+	ecsHopToHop(c, "C05-R8")
+	c.Inf("C05-R8", "partial-copy sweep", token.NoPos, "%d field-by-field copies examined in dnssvc", sharedPartialCopy(c, "C05-R8", func(fn *ssa.Function) bool {
+		return strings.HasPrefix(an.FnKey(fn), "dnssvc")
+	}, map[string]string{}))
 	c05GeoData(c)
 	sharedErrorsAs(c, "C05-R5", 1, "dnssvc/internal/ratelimitmw.", "ecscache.", "dnsmsg.")
 	if n := sharedLoopCompleteness(c, "C05-R6", "dnsmsg.", "ecscache.", "geoip."); n > 0 {
